@@ -91,6 +91,8 @@ def confined_to_raise(node, fnode):
     st = _stmt_of(node)
     if isinstance(st, ast.Raise):
         return True
+    if isinstance(fnode, (ast.FunctionDef, ast.AsyncFunctionDef)) and block_always_raises(fnode.body):
+        return True  # a helper that never returns normally (only builds and raises an error)
     child = st
     for par in parents(st):
         if par is fnode:
